@@ -11,7 +11,8 @@ TU_OF = {k: tu for tu, ks in KINDS.items() for k in ks}
 TU_NAME = {0: 'limp4', 1: 'open', 2: 'one', 3: 'limp'}
 TUS = (0, 1, 2, 3)
 GEN = ['gen_policy_base.json', 'gen_policy_open2n2.json', 'gen_policy_open2n2_m1.json', 'gen_policy_open8.json',
-       'gen_index_base.json', 'gen_index_open2n2.json', 'gen_index_open8.json', 'gen_buckets.json']
+       'gen_index_base.json', 'gen_index_open2n2.json', 'gen_index_open8.json', 'gen_buckets.json', 'gen_hashset_grow.json',
+       'gen_c13_open2n2.json', 'gen_c13_open2n2_ops.json', 'gen_c13_openn1.json', 'gen_c13_openn1_ops.json']
 MAP_KINDS = ('L4', 'L1', 'O3', 'P3', 'N1')
 
 
@@ -384,6 +385,28 @@ def leaf_cases(ctx, scale):
                     out.append('leaf idx %s %d %d %d %d' % (k, hc, L, i, p))
     for L in range(0, 17):
         out.append('leaf cnt %d' % L)
+    # AddCrt / Remove / UpdateMaxProbe / Clear sequences on ONE real bucket vs the generated functions: all bookkeeping bytes,
+    # the count and IsFull (generator ported from props/C13)
+    for i in range(250 * scale):
+        kind = r.choice(['o2', 'n1', 'n1f', 'n1f']); m = 3 if kind != 'n1f' else 7; L = r.range(1, 63)
+        cnt = 0; toks = []
+        for _ in range(r.range(1, 40)):
+            c = r.below(10)
+            if c < 5 and cnt < m:
+                hc = r.choice([r.next(), r.below(1 << 20), (r.below(256) << 56) | r.below(1 << 16), 2 ** 64 - 1, 0])
+                toks.append('A:%d:%d:%d' % (hc, r.range(0, 63), r.choice([0, 1, r.below(300), r.below(1 << 20)]))); cnt += 1
+            elif c < 8 and cnt > 0:
+                toks.append('R:%d' % r.below(cnt)); cnt -= 1
+            elif c < 9:
+                toks.append('U:%d' % min(2 ** L - 1, r.choice([0, 1, r.below(8), r.below(300), 254, 255, 256, r.below(1 << 20), 2 ** L - 1])))
+            elif r.below(4) == 0:
+                toks.append('C:0'); cnt = 0
+        out.append('leaf bops %s %d %d %s' % (kind, m, L, ' '.join(toks)))
+    # the generated size loop of Reserve (+ the f76c2d4 length_error bound) against the real Reserve on a bucket-less set
+    for kind in ('L4', 'L1', 'O3', 'O8'):
+        for nl0 in (0, 1, 2, 4, 7):
+            for n in [1, 2, 3, 5, 6, 7, 11, 12, 13, 21, 22, 23, 32, 33, 100, 1000, 5000, 2 ** 64 - 1] + [r.range(1, 3000) for _ in range(3)]:   # (2^62.. would be refused by Buckets::Create, not by the loop)
+                out.append('leaf rsv %s %d %d' % (kind, nl0, n))
     return out
 
 
